@@ -12,7 +12,9 @@ PROPS = {
                 runtime=_RT + ["NetRun.vo", "Monitors.vo"], targets=["Properties/C09.vo"]),
     "C10": dict(kind="check", quick=3, thorough=60, runtime=_RT, targets=["Properties/C10.vo"]),
     "C11": dict(kind="check", quick=160, thorough=3200, runtime=_RT, targets=["Properties/C11.vo"]),
+    # C16text: the same property on program TEXTS (coq/TextPipeline.v; extra slice harness/kind_c16text.py)
     "C16": dict(kind="check", quick=120, thorough=2400, quick_fuzz=1500, thorough_fuzz=30000,
-                runtime=_RT, targets=["Properties/C16.vo"]),
+                property_files=("C16text",), extra_kinds=("c16text",),
+                runtime=_RT + ["TextPipeline.vo"], targets=["Properties/C16.vo", "Properties/C16text.vo"]),
     "C19": dict(kind="check", quick=3, thorough=60, runtime=_RT, targets=["Properties/C19.vo"]),
 }
